@@ -26,7 +26,7 @@ ASSUMPTIONS = [
 COMPONENTS = {'real': ['yldprolog.engine evaluate_bounded, query, generated clause code', 'sys.setrecursionlimit / CPython recursion accounting'],
               'stub': ['caller (harness frames of seeded depth)', 'projection functions with raise switches'],
               'oracle': ['self-referential: plain enumeration of the same query under a high limit; sys.getrecursionlimit(); get_value of every (registered) variable']}
-REQUIRED_PROBES = ('completeness_checked_after_projection_fault', 'limit_struck_in_search', 'complete_within_limit', 'proj_raise_fired', 'held_by_caller', 'inline_query', 'proj_overflow_or_recursive',
+REQUIRED_PROBES = ('database_at_depth_worlds', 'completeness_checked_after_projection_fault', 'limit_struck_in_search', 'complete_within_limit', 'proj_raise_fired', 'held_by_caller', 'inline_query', 'proj_overflow_or_recursive',
                    'initial_limit_below_given_limit')
 
 HIGH_LIMIT = 4000      # limit in force for the reference enumeration and the harness itself
@@ -65,7 +65,16 @@ viacut2(X) :- cutnat(X).
 viacut2(X) :- fin(X).
 fm(L) :- findall(X, mem(X,[a,b,c]), L).
 fl(L,Xs) :- findall(X, mem(X,Xs), L).
+dl([], C) :- colour(C).
+dl([_|T], C) :- dl(T, C).
+dcol(C) :- colour(C).
+dgrow(N) :- assertz(seen(N)), dgrow(s(N)).
+dkeep(L) :- assertz(item(L)).
+dkeep2(L, X) :- len(L, N), assertz(item(N)), X = ok.
+dret([], C) :- retract(colour(C)), assertz(colour(C)).
+dret([_|T], C) :- dret(T, C).
 '''
+DYN_QUERIES = ('dl', 'dgrow', 'dkeep', 'dkeep2', 'dret', 'colour', 'dcol')
 _LIB = None
 
 
@@ -93,6 +102,11 @@ def gen(seed, tier):
             ['mem', [V(0), lst(n, ('a', 'b'))]], ['both', [V(0), V(1)]], ['cutnat', [V(0)]], ['ite', [V(0)]],
             ['nat', [['f', 's', [['f', 's', [V(0)]]]]]], ['undefined_pred', [V(0)]], ['viacut', [V(0)]], ['viacut2', [V(0)]], ['fm', [V(0)]], ['fl', [V(0), lst(n, ('a', 'b'))]], ['fl', [V(0), lst(max(n, 8), ('a', 'c'))]],
         ])
+        if rng.random() < 0.15:
+            # the database at depth: dynamic facts looked up, asserted and retracted where the limit strikes
+            q = rng.choice([['dl', [lst(n), ['a', 'red']]], ['dl', [lst(n), ['a', 'red']]], ['dl', [lst(n), V(0)]], ['dgrow', [['a', 'z']]], ['dkeep', [lst(max(n, 20))]],
+                            ['dkeep2', [lst(n), V(0)]], ['dret', [lst(n), ['a', 'green']]],
+                            ['colour', [['a', 'red']]], ['dcol', [['a', 'red']]], ['colour', [V(0)]]])
         world = None
     else:
         world = progs.gen_world(rng, rich=rng.random() < 0.6, natives=False, max_depth=2)
@@ -155,6 +169,12 @@ def _execute(plan):
     else:
         yp.load_script_from_string(_LIB, fn='<sim:lib>')
     name, targs = plan['query']
+    dyn = name in DYN_QUERIES
+    if dyn:
+        for c_ in ('red', 'green', 'blue', 'red'):
+            yp.assert_fact(yp.atom('colour'), [yp.atom(c_)])
+        log.count('database_at_depth_worlds')
+    counter = [0]
     qvars = {}
     qargs = [TM.build(yp, TM.T(t), qvars) for t in targs]
     allvars = list(qvars.values())
@@ -169,6 +189,10 @@ def _execute(plan):
     # reference: plain enumeration under a high limit (lazily extended)
     sys.setrecursionlimit(HIGH_LIMIT)
     ref = {'ans': [], 'end': None}
+    if name == 'dgrow':
+        # by construction: no answers, unbounded depth (the engine needs minutes to get 4000 frames deep here: every
+        # level resolves and copies a term one level larger)
+        ref = {'ans': [], 'end': 'too-deep-for-reference'}
 
     def ref_upto(n):
         """the first n reference answers; the reference enumeration is re-run from the start and
@@ -274,7 +298,13 @@ def _execute(plan):
         if unraisable:
             return 'exception-in-finaliser', dict(tag, unraisable=unraisable[:3])
         if esc is not None and esc != 'injected':
+            # an exception of the engine's own (unknown predicate, ...) is an outcome - if the plain enumeration ends
+            # in the same one.  If the plain enumeration runs to its end (or to the depth limit) without it, the
+            # bounded call - which only ever executes a prefix of that search - has let the depth limit escape in disguise
             log.count('engine_exception_outcome')
+            ref_upto(REF_CAP)
+            if ref['end'] in ('exhausted', 'too-deep-for-reference'):
+                return 'depth-error-escapes-as-other-exception', dict(tag, escaped=esc, plain_enumeration_ends=ref['end'])
             return None
         if res is not None:
             want = ref_upto(len(res) + 1)
@@ -329,6 +359,9 @@ def _execute(plan):
         n = complete_under(off)
         if n is None:
             return None
+        if ref['end'] == 'exhausted' and n != len(ref['ans']) and not side_effects:
+            return ('answers-changed-after-bounded-calls', {'limit_offset': off, 'fault': after_fault, 'plain_enumeration_now': n, 'plain_enumeration_at_start': len(ref['ans']),
+                                                            'note': 'the plain enumeration of the same query no longer gives the answers it gave before the bounded calls'})
         got = []
         sys.setrecursionlimit(abs_l0())
         try:
@@ -349,14 +382,47 @@ def _execute(plan):
                                                 'note': None if after_fault is None else 'checked right after the call in which the projection raised'})
         return None
 
+    def intact(off):
+        """the plain enumeration right after a bounded call (no limit in the way) gives what it gave at the start"""
+        if ref['end'] != 'exhausted' or side_effects:
+            return None
+        n = 0
+        g = yp.query(name, qargs)
+        try:
+            for _ in g:
+                n += 1
+                if n > REF_CAP:
+                    break
+        except Exception as e:
+            n = 'exc:' + type(e).__name__
+        g.close()
+        log.ev('intact', off, n)
+        log.count('plain_enumeration_compared_after_bounded_call')
+        if n != len(ref['ans']):
+            return ('answers-changed-after-bounded-calls', {'limit_offset': off, 'fault': None, 'plain_enumeration_now': n, 'plain_enumeration_at_start': len(ref['ans']),
+                                                            'note': 'the plain enumeration of the same query no longer gives the answers it gave before the bounded call'})
+        return None
+    side_effects = name in ('dret',)      # (its answers are the same every time, but only if every earlier run completed)
     try:
         log.count('held_by_caller' if held else 'inline_query')
-        offsets = list(range(WINDOW[0], WINDOW[1] + 1)) if plan['limits'] == 'window' else plan['limits']
+        ref_upto(8)
+        offsets = list(range(2 if name in ('colour', 'dcol') else WINDOW[0], WINDOW[1] + 1)) if plan['limits'] == 'window' else plan['limits']
         for off in offsets:
             log.count('cases')
+            if dyn:
+                # the facts change (a fact comes and goes) before every call: whatever the engine keeps per predicate is rebuilt during the call
+                counter[0] += 1
+                yp.assert_fact(yp.atom('colour'), [yp.atom('c%d' % counter[0])])
+                for _ in yp.query('retractall', [yp.functor('colour', [yp.atom('c%d' % counter[0])])]):
+                    pass
+                for nm_ in ('seen', 'item'):
+                    for _ in yp.query('retractall', [yp.functor(nm_, [yp.variable()])]):
+                        pass
             v = one_call(off, None)
             if v is None and projkind == 'index' and off - MARGIN >= 4 and (off % 8 == 0 or plan['limits'] != 'window'):
                 v = completeness(off, None)
+            if v is None and dyn and name != 'dgrow':
+                v = intact(off)
             if v is not None:
                 log.violation(v[0], v[1])
                 return log.result()
